@@ -273,6 +273,39 @@ def run(ctx):
                     except progen.Unsupported:
                         continue
                     cases.append(Case("expr %s" % txt, PRE + "println(%s)" % txt, exp, DECLS))
+    # spelled first: an UNPARENTHESISED unary minus as the right operand of a tighter operator.
+    # The table puts the minus on row 6, so its operand takes in the tighter operators that follow
+    # (`x / -y * z` is `x / (-(y * z))`, as `-y * z` alone is `-(y * z)`) and stops at a looser one.
+    tight = [o for o in ints if LEVELS[o] > NEG_LEVEL]
+    tleaves = [(("var", "c"), ("var", "d"), ("var", "a")), (("lit", 100), ("lit", 2), ("lit", 5)), (("var", "c"), ("lit", 2), ("var", "a")),
+               (("lit", 7), ("var", "d"), ("lit", 3))]
+    for o1 in tight:
+        for o2 in ints:
+            for (x, y, z) in tleaves:
+                for tail in (None, "+", "*"):
+                    if LEVELS[o2] > NEG_LEVEL:
+                        e = ("bin", o1, x, ("neg", ("bin", o2, y, z)))
+                    else:
+                        e = ("bin", o2, ("bin", o1, x, ("neg", y)), z)
+                    txt = "%s %s -%s %s %s" % (show(x), o1, show(y), o2, show(z))
+                    if tail == "+":
+                        e = ("bin", "+", e, ("lit", 1))
+                        txt += " + 1"
+                    elif tail == "*":
+                        if LEVELS[o2] <= NEG_LEVEL or o2 == "^" or LEVELS[o2] > LEVELS["*"]:
+                            continue   # keep to shapes whose reading needs no further associativity rule
+                        e = ("bin", o1, x, ("neg", ("bin", "*", ("bin", o2, y, z), ("lit", 2))))
+                        txt += " * 2"
+                    if txt in seen:
+                        continue
+                    seen.add(txt)
+                    try:
+                        exp = ("out", progen.render(ev(e)) + "\n")
+                    except progen.AbraError as ex:
+                        exp = ("err", ex.kind)
+                    except progen.Unsupported:
+                        continue
+                    cases.append(Case("spelled %s" % txt, PRE + "println(%s)" % txt, exp, DECLS))
     # float sub-grammar (+ - * / ^, unary minus, negative literals): minimal vs full parentheses
     nf = 1500 if ctx.quick else 25000
     tries = 0
